@@ -383,6 +383,22 @@ Definition synchronize_listeners (T : tree) (src : oracle) (ls : list locator) (
     end
   end.
 
+(** * Composed listeners ([impl Listen for (T, U)] and the [Deref] wrappers of chain/mod.rs)
+    A composite delivers every notification to every component, first component first.  Leaves are
+    numbered left to right; [fan_trace] is the sequence of (leaf, notification) deliveries. *)
+Inductive lshape := Leaf | Pair (a b : lshape).
+Fixpoint nleaves (sh : lshape) : nat := match sh with Leaf => 1 | Pair a b => nleaves a + nleaves b end.
+Fixpoint deliver_comp (sh : lshape) (off : nat) (e : event) : list (nat * event) :=
+  match sh with
+  | Leaf => [(off, e)]
+  | Pair a b => deliver_comp a off e ++ deliver_comp b (off + nleaves a) e
+  end.
+Definition fan_trace (sh : lshape) (log : list event) : list (nat * event) := flat_map (deliver_comp sh 0) log.
+Definition leaf_log (i : nat) (tr : list (nat * event)) : list event :=
+  map snd (filter (fun p => Nat.eqb (fst p) i) tr).
+Definition leaf_logs (sh : lshape) (log : list event) : list (list event) :=
+  map (fun i => leaf_log i (fan_trace sh log)) (seq 0 (nleaves sh)).
+
 (** * A scripted source over the universe: truthful except at scripted request indices. *)
 (** [FS y dh dw]: answer as for block [y] with height/chainwork claims shifted; [FF dh dw]: answer for
     the requested block itself with shifted claims; [FM]: corrupt the transaction list; [FH]: flip
@@ -479,28 +495,31 @@ Definition show_poll_rc (r : res (chaintip * bool)) : string :=
   | Ok (Worse v, b) => "W" ++ show_vh v ++ (if b then "+" else "-")
   end.
 
-(** One scenario = start state + list of polls [(best, hint)] under one global fault script. *)
-Fixpoint run_polls (T : tree) (full : bool) (sc : nat -> option fault) (nlisteners : nat) (cl : client) (n : nat)
+(** One scenario = start state + list of polls [(best, hint)] under one global fault script; the
+    listener(s) are composites given by their shapes, one printed log per leaf. *)
+Fixpoint run_polls (T : tree) (full : bool) (sc : nat -> option fault) (shapes : list lshape) (cl : client) (n : nat)
     (polls : list (Z * bool)) : list string :=
   match polls with
   | [] => []
   | (best, hint) :: rest =>
     let '(r, cl', log, n') := poll_best_tip T (scripted T best hint full sc) cl n in
-    ("P " ++ show_poll_rc r ++ " " ++ ns n' ++ " | " ++ String.concat " | " (repeat (show_log log) nlisteners))
-      :: run_polls T full sc nlisteners cl' n' rest
+    ("P " ++ show_poll_rc r ++ " " ++ ns n' ++ " | "
+       ++ String.concat " | " (map show_log (flat_map (fun sh => leaf_logs sh log) shapes)))
+      :: run_polls T full sc shapes cl' n' rest
   end.
 
-Definition run_spv (T : tree) (full : bool) (start : Z) (faults : list (Z * fault)) (polls : list (Z * bool))
+Definition run_spv (T : tree) (full : bool) (start : Z) (shape : lshape) (faults : list (Z * fault)) (polls : list (Z * bool))
   : list string :=
-  run_polls T full (script_of_list faults) 1 {| cl_tip := tv T start; cl_cache := [] |} 0%nat polls.
+  run_polls T full (script_of_list faults) [shape] {| cl_tip := tv T start; cl_cache := [] |} 0%nat polls.
 
-Definition run_init (T : tree) (full : bool) (ls : list locator) (faults : list (Z * fault))
+Definition run_init (T : tree) (full : bool) (ls : list locator) (shapes : list lshape) (faults : list (Z * fault))
     (sync : Z * bool) (polls : list (Z * bool)) : list string :=
   let sc := script_of_list faults in
   let '(r, logs, n) := synchronize_listeners T (scripted T (fst sync) (snd sync) full sc) ls 0%nat in
+  let per_leaf := flat_map (fun sl => leaf_logs (fst sl) (snd sl)) (combine shapes logs) in
   let line := "S " ++ (match r with Err e => show_err e | Ok (_, tip) => "Ok" ++ show_vh tip end)
-              ++ " " ++ ns n ++ " | " ++ String.concat " | " (map show_log logs) in
+              ++ " " ++ ns n ++ " | " ++ String.concat " | " (map show_log per_leaf) in
   match r with
   | Err _ => line :: map (fun _ => "P X") polls
-  | Ok (c, tip) => line :: run_polls T full sc (List.length ls) {| cl_tip := tip; cl_cache := c |} n polls
+  | Ok (c, tip) => line :: run_polls T full sc shapes {| cl_tip := tip; cl_cache := c |} n polls
   end.
